@@ -7,23 +7,39 @@ func init() {
 	Register("C11", []Target{
 		{Pkg: "crypto/x509", Type: "Certificate", Opaque: true, Views: map[string]string{"Raw": "list Z"}},
 		{Pkg: "crypto/x509", Type: "CertPool", Opaque: true},
-		// translated: the argument check of SignOCI / SignBlob (the model's `validate`) and the
-		// nil-info / zero-time decisions of generateAnnotations (the model's `gen_ann`)
+		// the argument check of SignOCI / SignBlob (the model's `validate`); the plain form (signer : anyv)
+		// and the instance SignOCI calls (signer : notation.Signer)
 		{Pkg: n, Func: "validateSigMediaType"},
-		{Pkg: n, Func: "validateSignArguments"},
+		{Pkg: n, Func: "validateSignArguments", InstantiateAny: []string{"signer"}},
+		// user metadata merged into the descriptor to sign (the model's `add_meta false`)
+		{Pkg: n, Func: "addUserMetadataToDescriptor"},
+		// annotations of the signature manifest (the model's `gen_ann`); SHA-256, hex, JSON and the
+		// time format are dependencies: oracles
 		{Pkg: "time", Func: "Time.UTC", Oracle: true},
 		{Pkg: ".../internal/envelope", Func: "SigningTime"},
+		{Pkg: "crypto/sha256", Func: "Sum256", Oracle: true},
+		{Pkg: "encoding/hex", Func: "EncodeToString", Oracle: true},
+		{Pkg: "encoding/json", Func: "Marshal", Oracle: true},
+		{Pkg: "time", Func: "Time.Format", Oracle: true},
+		{Pkg: n, Func: "generateAnnotations", NilIsEmpty: true},
+		// SignOCI: signer, repository and the reference / digest parsers are oracles
+		{Pkg: n, Type: "Signer", Opaque: true, Nilable: true},
+		{Pkg: n, Type: "signerAnnotation", Opaque: true, Nilable: true},
+		{Pkg: ".../registry", Type: "Repository", Opaque: true, Nilable: true},
+		{Pkg: n, Func: "Signer.Sign", Oracle: true},
+		// FreshResults: ASSUMPTION that the plugin's map is not shared (generateAnnotations writes into it);
+		// the model's heap (PAMap a) and the harness cover the shared case
+		{Pkg: n, Func: "signerAnnotation.PluginAnnotations", Oracle: true, FreshResults: true},
+		{Pkg: ".../registry", Func: "Repository.Resolve", Oracle: true},
+		{Pkg: ".../registry", Func: "Repository.PushSignature", Oracle: true},
+		{Pkg: "oras.land/oras-go/v2/registry", Func: "ParseReference", Oracle: true},
+		{Pkg: "github.com/opencontainers/go-digest", Func: "Digest.String"},
+		{Pkg: "github.com/opencontainers/go-digest", Func: "Parse", Oracle: true},
+		{Pkg: "oras.land/oras-go/v2/registry/remote", Func: "(*ReferrersError).IsReferrersIndexDelete", Oracle: true},
+		{Pkg: n, Func: "SignOCI"},
 
 		// Refused; kept because the reason documents what is outside the subset
-		// (docs/audit/C11.md, section GoLite).
-		// desc.Annotations[k] = v through a by-value struct parameter whose map is the caller's unless
-		// len(userMetadata) > 0 replaced it (notation.go:286): aliasing, outside GoLite's value semantics
-		{Pkg: n, Func: "addUserMetadataToDescriptor"},
-		// map parameter reassigned when nil and then written (:622-625); sha256.Sum256 array, json.Marshal(any)
-		{Pkg: n, Func: "generateAnnotations"},
-		// registry.Repository (four-method interface), signer.(signerAnnotation) (:202)
-		{Pkg: n, Func: "SignOCI"},
-		// content.Storage / content.Pusher interface values (registry/repository.go:145, :225)
+		// (docs/audit/C11.md, section GoLite): content.Storage / content.Pusher interface values
 		{Pkg: ".../registry", Func: "pushNotationManifestConfig"},
 		{Pkg: ".../registry", Func: "(*repositoryClient).PushSignature"},
 	})
